@@ -290,7 +290,9 @@ def mc_pager(res, pid, tier):
         for line in open(of):
             if '"ev":"grammar"' in line:
                 f.write(line)
-    L = 4 if tier == "quick" else 5
+    # C02 is about merging (conflicts, number of states): many grammars, short inputs; C01 is
+    # about the language: fewer grammars, longer inputs
+    L = (4 if tier == "quick" else 5) if pid == "C01" else (4 if tier == "quick" else 3)
     cfg = os.path.join(res.wd, "MC_Pager.cfg")
     body = "SPECIFICATION Spec\nCONSTANTS\n  MergeMode = \"%s\"\n  L = %d\n  ParseAtLeast = 3\n  TryParseAtMost = 250\n" \
            "INVARIANT ClosedOK\nINVARIANT NotMoreStates\nINVARIANT NoNewConflict\nINVARIANT LanguageOK\nCHECK_DEADLOCK FALSE\n"
